@@ -39,6 +39,10 @@ def one(name, tier):
     props = meta.get("properties") or ([meta["property"]] if "property" in meta else [])
     tmp = tempfile.mkdtemp(prefix="jrv-seed-")
     wt = os.path.join(tmp, "repo")
+    # a private copy of the verification tree (with its build output): Generated.lean depends on the repository checked
+    vroot = os.path.join(tmp, "verif")
+    sh(["rsync", "-a", "--exclude", ".git", "--exclude", "seeded", "--exclude", "replays", ROOT + "/", vroot + "/"])
+    os.makedirs(os.path.join(vroot, "replays"), exist_ok=True)
     res = {"name": name, "properties": props, "results": {}}
     try:
         rc, out = sh(["git", "-C", "/repo", "worktree", "add", "--detach", wt, "HEAD"])
@@ -51,7 +55,7 @@ def one(name, tier):
             return res
         for pid in props:
             # each check gets its own copy of the verif tree?  no: Generated.lean is shared -> serialise per process
-            rc, out = sh([os.path.join(ROOT, "check"), pid, "--tier", tier], cwd=ROOT,
+            rc, out = sh([os.path.join(vroot, "check"), pid, "--tier", tier], cwd=vroot,
                          env={"VERIF_REPO": wt, "VERIF_EVIDENCE_DIR": os.path.join(tmp, "evidence")}, timeout=3600)
             line = [ln for ln in out.splitlines() if ln.startswith("VIOLATION")]
             if rc == 1 and line:
@@ -59,7 +63,7 @@ def one(name, tier):
                 detail = ""
                 try:
                     rp = line[0].split("replay=")[1].split()[0]
-                    pl = json.load(open(os.path.join(ROOT, rp)))
+                    pl = json.load(open(os.path.join(vroot, rp)))
                     detail = str(pl.get("detail") or pl.get("broken_obligations"))[:300]
                 except Exception:
                     pass
@@ -80,17 +84,15 @@ def main():
     ap = argparse.ArgumentParser()
     ap.add_argument("--only", default="")
     ap.add_argument("--tier", default="quick")
+    ap.add_argument("--jobs", type=int, default=5)
     a = ap.parse_args()
     names = sorted(n for n in os.listdir(os.path.join(ROOT, "seeded")) if os.path.isfile(os.path.join(ROOT, "seeded", n, "patch.diff")))
     names = [n for n in names if a.only in n]
     results = []
-    # sequential: the checks share lean/JRV/Generated.lean, which depends on the repository being checked
-    for n in names:
-        r = one(n, a.tier)
-        results.append(r)
-        print(n, json.dumps(r.get("results") or r.get("error")))
-    # restore Generated.lean for the real repository
-    sh([os.path.join(ROOT, "check"), "--setup"], cwd=ROOT)
+    with concurrent.futures.ThreadPoolExecutor(max_workers=a.jobs) as ex:
+        for n, r in zip(names, ex.map(lambda n: one(n, a.tier), names)):
+            results.append(r)
+            print(n, json.dumps(r.get("results") or r.get("error")), flush=True)
     path = os.path.join(ROOT, "seeded", "results.json")
     old = {}
     try:
